@@ -635,3 +635,31 @@ func clip(s string, n int) string {
 	}
 	return s
 }
+
+// utf8Corpus: a pinned corpus for the byte level of C09 / C11 / C19. Every literal kind and several
+// grammatical positions hold valid multi-byte characters (2, 3, 4 bytes, U+FFFD itself, a BOM, the Unicode
+// spaces NEL / NBSP / U+2028 that the lexer skips as white space, U+200B that it does not) and every kind of
+// invalid UTF-8 ([]rune reads each bad byte as U+FFFD: lone continuation, 0xFF, truncated 2/3/4-byte
+// sequences, overlong C0 80, a surrogate ED A0 80, beyond U+10FFFF), also at the end of a line and of the file.
+func utf8Corpus() []string {
+	pieces := []string{
+		"\u00e9", "\u65e5\u672c", "\U0001F600", "\ufffd", "\ufeff", "\u0085", "\u00a0", "\u2028", "\u200b",
+		"\xff", "\x80", "\xc3", "\xe2\x82", "\xf0\x9f\x98", "\xc0\x80", "\xed\xa0\x80", "\xf4\x90\x80\x80",
+		"a\xffb\U0001F600\xc3",
+	}
+	var out []string
+	for _, p := range pieces {
+		out = append(out,
+			"x = \""+p+"\"\n",
+			"x = 1 // "+p+"\ny = 2\n",
+			"/* "+p+" */\nx = 1\n",
+			"| "+p+" word "+p+"\n| second\n",
+			"x = /"+p+"/\n",
+			"a \""+p+"\" {\n\tk = [\""+p+"\", 1]\n}",
+			"x = 1 "+p+"\n",
+			p+" = 1\n",
+			"b {\n| "+p+"\n}\n"+p,
+		)
+	}
+	return out
+}
